@@ -127,7 +127,7 @@ def padding_chunks(prog):
             n += 1
             sl = arg_slice(f, t, 0)
             names = {(callee_of(f.term(b)) or {}).get("name") for b in sl["calls"]}
-            if "split_at" in names and "field_modulus_bytes" in slice_field_bases(sl):
+            if ("split_at" in names or "index" in names) and "field_modulus_bytes" in slice_field_bases(sl) and not (names & {"chunks", "chunks_exact"}):
                 hows.append("modulus half")
                 continue
             ok = False
